@@ -600,16 +600,7 @@ func compareAndWriteFile(filePath string, b []byte) (bool, error) {
 			return false, err
 		}
 
-		// Write to a temporary file first and rename it into place, so that a process crash never leaves an
-		// empty or half-written metadata file behind. The temporary name is hex-encoded so that it can never
-		// be mistaken for a metadata file when the entry is reloaded.
-		tmpPath := filepath.Join(
-			filepath.Dir(filePath), ".tmp-"+hex.EncodeToString([]byte(filepath.Base(filePath))))
-		if err := os.WriteFile(tmpPath, b, 0775); err != nil {
-			return false, err
-		}
-		if err := os.Rename(tmpPath, filePath); err != nil {
-			os.Remove(tmpPath)
+		if err := writeFileAtomic(filePath, b); err != nil {
 			return false, err
 		}
 		return true, nil
@@ -630,14 +621,26 @@ func compareAndWriteFile(filePath string, b []byte) (bool, error) {
 		return false, nil
 	}
 
-	if len(buf) != len(b) {
-		if err := f.Truncate(int64(len(b))); err != nil {
-			return false, err
-		}
-	}
-
-	if _, err := f.WriteAt(b, 0); err != nil {
+	// Replace the file as a whole (never truncate and rewrite in place): a process crash must leave either
+	// the old or the new content behind, not an empty or mixed file.
+	if err := writeFileAtomic(filePath, b); err != nil {
 		return false, err
 	}
 	return true, nil
+}
+
+// writeFileAtomic writes b to a temporary file next to filePath and renames it into place, so that a process
+// crash never leaves an empty or half-written file behind. The temporary name is hex-encoded so that it can
+// never be mistaken for a metadata file when the entry is reloaded.
+func writeFileAtomic(filePath string, b []byte) error {
+	tmpPath := filepath.Join(
+		filepath.Dir(filePath), ".tmp-"+hex.EncodeToString([]byte(filepath.Base(filePath))))
+	if err := os.WriteFile(tmpPath, b, 0775); err != nil {
+		return err
+	}
+	if err := os.Rename(tmpPath, filePath); err != nil {
+		os.Remove(tmpPath)
+		return err
+	}
+	return nil
 }
